@@ -274,6 +274,16 @@ def impl_ops(case):
     p = mk()
     p.append("extra", np.arange(len(case["samples"]), dtype=np.float64))
     out["append"] = {"names": list(p.names), "samples": list(p.samples), "data": np.asarray(p.data).tolist()}
+    if len(set(case["names"])) == len(case["names"]):
+        # a short history on one object: by-name lookup first (builds the name index), two appends, by-name subsets
+        p = mk()
+        p.subset(names=tuple(case["names"][:1]))
+        n_ = len(case["samples"])
+        p.append("e1", np.arange(n_, dtype=np.float64) + 100)
+        p.append("e2", np.arange(n_, dtype=np.float64) + 200)
+        r1 = C.guarded(lambda: (lambda q: {"names": list(q.names), "data": np.asarray(q.data).tolist()})(p.subset(names=("e1",))))
+        r2 = C.guarded(lambda: (lambda q: {"names": list(q.names), "data": np.asarray(q.data).tolist()})(p.subset(names=("e2", case["names"][0]))))
+        out["append_history"] = [r1, r2]
     p = mk()
     r = p.subset(samples=None if case["rs"] is None else tuple(case["rs"]), names=None if case["cs"] is None else tuple(case["cs"]))
     out["subset"] = {"names": list(r.names), "samples": list(r.samples), "data": np.asarray(r.data).tolist()}
@@ -311,6 +321,12 @@ def oracle_ops(case, obs):
             tol_mean = 1e-9 + 8 * ns * 2.3e-16 * max(abs(x) for x in col) / esd
             if abs(mean) > tol_mean or abs(var - 1) > 1e-9:
                 return f"column {col} standardised to {std}: mean {mean}, variance {var} (expected 0 and 1)"
+    if "append_history" in obs:
+        r1, r2 = obs["append_history"]
+        w1 = {"names": ["e1"], "data": [[float(i + 100)] for i in range(ns)]}
+        w2 = {"names": ["e2", case["names"][0]], "data": [[float(i + 200), D[i][0]] for i in range(ns)]}
+        if r1 != w1 or r2 != w2:
+            return f"after a by-name lookup and two appends, subset(names=('e1',)) gave {r1} and subset(names=('e2', {case['names'][0]!r})) gave {r2}; expected {w1} and {w2}"
     a = obs["append"]
     if a["names"] != case["names"] + ["extra"] or a["samples"] != case["samples"] or a["data"] != [D[i] + [float(i)] for i in range(ns)]:
         return f"append produced {a}"
